@@ -531,6 +531,19 @@ impl Store {
         let topic_key = idx_topic_key_from_frame(frame)?;
 
         let mut batch = self.keyspace.batch();
+        // A frame stored under an id that is already taken replaces that frame: the index
+        // entries of the replaced frame must not linger, or it would stay listed under its
+        // former topic and in its former context's stream.
+        if let Some(old) = self.get(&frame.id) {
+            if old.topic != frame.topic || old.context_id != frame.context_id {
+                if let Ok(old_topic_key) = idx_topic_key_from_frame(&old) {
+                    batch.remove(&self.idx_topic, old_topic_key);
+                }
+            }
+            if old.context_id != frame.context_id {
+                batch.remove(&self.idx_context, idx_context_key_from_frame(&old));
+            }
+        }
         batch.insert(&self.frame_partition, frame.id.as_bytes(), encoded);
         batch.insert(&self.idx_topic, topic_key, b"");
         batch.insert(&self.idx_context, idx_context_key_from_frame(frame), b"");
